@@ -1,5 +1,6 @@
 import QuantemModel.Lemmas.DirectPtycho
 import QuantemModel.Lemmas.DirectPtychoReal
+import QuantemModel.Lemmas.DirectKernel
 /-!
 # C04 — direct ptychography: batch-invariant, linear, exact on analytic cases
 
@@ -411,5 +412,207 @@ theorem override_coefficient_wins {α ρ : Type} (neg : α → α) (st : HState 
 example : canonicalize (fun x : Int => -x) [("defocus", 5), ("C12", 0), ("astigmatism_angle", 2)] =
       .ok [("C10", -5), ("C12", 0), ("phi12", 2)] ∧
     canonicalize (fun x : Int => -x) [("focus", 1)] = .error .valueError := by decide
+
+/-! ## the kernel formulas, as translated from the current source (`Generated/DirectKernel.lean`)
+
+`harness/translator/dpkernel2lean.py` re-translates `complex_probe.py` (`aperture`, `aberration_surface` and its
+gradients, `evaluate_probe`, `gamma_factor`, `polar_coordinates`, `_passively_rotate_grid`) and
+`direct_ptychography.py` (`_return_kernel_contributions` per kernel; Butterworth envelope, parallax gradient / sign,
+aperture weight, obf / mf normalisation of `reconstruct`) on every run.  The theorems below are about THAT text. -/
+
+open QuantemModel.Generated.DirectKernel in
+/-- `evaluate_probe = aperture · exp(−iχ)` -/
+theorem generated_probe_eq_spec (α φ sa as0 as1 lam : ℝ) (soft : Bool) (coefs : List (String × ℝ)) :
+    evaluate_probe α φ sa as0 as1 lam soft coefs =
+      Cx.smul (aperture α φ sa as0 as1 soft) (Cx.cis (-(aberration_surface α φ lam coefs))) :=
+  evaluate_probe_eq α φ sa as0 as1 lam soft coefs
+
+open QuantemModel.Generated.DirectKernel in
+/-- `gamma_factor` on the path `reconstruct` uses (`asymmetric_version=True`, `normalize=False`):
+`γ = ψ(q−k)·conj ψ(k) − conj ψ(q+k)·ψ(k)` -/
+theorem generated_gamma_eq_spec (qm0 qm1 qp0 qp1 : ℝ) (pk : Cx ℝ) (lam sa : ℝ) (soft : Bool)
+    (coefs : List (String × ℝ)) (as0 as1 : ℝ) :
+    gamma_factor qm0 qm1 qp0 qp1 pk lam sa soft coefs as0 as1 true false =
+      evaluate_probe ((polar_coordinates qm0 qm1).1 * lam) (polar_coordinates qm0 qm1).2 sa as0 as1 lam soft coefs *
+          Cx.conj pk -
+        Cx.conj (evaluate_probe ((polar_coordinates qp0 qp1).1 * lam) (polar_coordinates qp0 qp1).2 sa as0 as1 lam soft coefs) *
+          pk :=
+  gamma_factor_eq qm0 qm1 qp0 qp1 pk lam sa soft coefs as0 as1
+
+/-- the five branches of `_return_kernel_contributions` at one grid point of one bright-field pixel:
+ssb `−i·v·γ̄ / max(|γ|, 1e-8)`, obf = mf `−i·v·γ̄`, parallax `v·sign·exp(−i g·q)`, icom `v·(k·(−i q/q²))` with the DC bin zeroed -/
+theorem generated_kernel_eq_spec (g : KGeom ℝ) (v : Cx ℝ) (kx ky qx qy : ℝ) (pk : Cx ℝ) (gx gy sg : ℝ) (dc : Bool) :
+    pointFactor .ssb v kx ky qx qy pk gx gy sg dc g =
+      Generated.DirectKernel.cdivR (((⟨0, -1⟩ : Cx ℝ) * v) * Cx.conj (gammaAt g kx ky qx qy pk))
+        (max (Cx.abs (gammaAt g kx ky qx qy pk)) (1 / 100000000)) ∧
+    pointFactor .obf v kx ky qx qy pk gx gy sg dc g = ((⟨0, -1⟩ : Cx ℝ) * v) * Cx.conj (gammaAt g kx ky qx qy pk) ∧
+    pointFactor .mf v kx ky qx qy pk gx gy sg dc g = ((⟨0, -1⟩ : Cx ℝ) * v) * Cx.conj (gammaAt g kx ky qx qy pk) ∧
+    pointFactor .prlx v kx ky qx qy pk gx gy sg dc g = v * Cx.smul sg (Cx.cis (-(gx * qx + gy * qy))) ∧
+    pointFactor .icom v kx ky qx qy pk gx gy sg dc g =
+      v * (if dc then Cx.zero else
+        (⟨0, kx * (-qx / (qx * qx + qy * qy)) + ky * (-qy / (qx * qx + qy * qy))⟩ : Cx ℝ)) :=
+  ⟨ssb_factor_eq g v kx ky qx qy pk gx gy sg dc, obf_factor_eq g v kx ky qx qy pk gx gy sg dc,
+   mf_factor_eq g v kx ky qx qy pk gx gy sg dc, prlx_factor_eq g v kx ky qx qy pk gx gy sg dc,
+   icom_factor_eq g v kx ky qx qy pk gx gy sg dc⟩
+
+/-- **every kernel is `spectrum × factor`**, the factor being the kernel on a unit spectrum: this is why the first-pass
+numerator of the skeleton is `tile(V) · K` (and why the factors may be captured from the real code on a unit spectrum) -/
+theorem kernel_linear_in_spectrum (k : Kernel) (g : KGeom ℝ) (v : Cx ℝ) (kx ky qx qy : ℝ) (pk : Cx ℝ) (gx gy sg : ℝ)
+    (dc : Bool) :
+    pointFactor k v kx ky qx qy pk gx gy sg dc g = v * pointFactor k Cx.one kx ky qx qy pk gx gy sg dc g :=
+  pointFactor_linear k g v kx ky qx qy pk gx gy sg dc
+
+/-- the obf / mf power term is `|γ|²` (no data in it) and it is non-negative -/
+theorem kernel_power_eq_spec (g : KGeom ℝ) (kx ky qx qy : ℝ) (pk : Cx ℝ) :
+    pointPower .obf kx ky qx qy pk g = Cx.abs (gammaAt g kx ky qx qy pk) * Cx.abs (gammaAt g kx ky qx qy pk) ∧
+    pointPower .mf kx ky qx qy pk g = Cx.abs (gammaAt g kx ky qx qy pk) * Cx.abs (gammaAt g kx ky qx qy pk) ∧
+    0 ≤ pointPower .obf kx ky qx qy pk g ∧ 0 ≤ pointPower .mf kx ky qx qy pk g := by
+  obtain ⟨a, b⟩ := pointPower_eq g kx ky qx qy pk
+  refine ⟨a, b, ?_, ?_⟩
+  · rw [a]; exact mul_self_nonneg _
+  · rw [b]; exact mul_self_nonneg _
+
+open QuantemModel.Generated.DirectKernel in
+/-- the second pass never divides by zero: the translated normalisation is at least `1e-8`, whatever the accumulated power,
+the aperture weight and `matched_filter_norm_epsilon` -/
+theorem normalisation_positive (p mx W eps : ℝ) :
+    (0 : ℝ) < reconstruct_norm_obf p mx W eps ∧ (0 : ℝ) < reconstruct_norm_mf p mx W eps :=
+  ⟨lt_of_lt_of_le (by norm_num) (norm_obf_pos p mx W eps), lt_of_lt_of_le (by norm_num) (norm_mf_pos p mx W eps)⟩
+
+/-- the normalisation of the streaming skeleton (`normOf`, which `batch_invariant` is about) IS the translated code -/
+theorem generated_norm_eq_model {R : Type} [Num R] (k : Kernel) (pb : Problem R) (power : Img R) :
+    normOf k pb power = normOfGenerated k pb.W pb.eps power :=
+  normOf_eq_generated k pb power
+
+open QuantemModel.Generated.DirectKernel in
+/-- `q_lowpass` / `q_highpass` that are `None` or exactly `0` (both falsy) leave the spectrum untouched -/
+theorem butterworth_no_filter (qx qy : ℝ) (ql qh : Option ℝ) (n : Nat)
+    (hl : ql = none ∨ ql = some 0) (hh : qh = none ∨ qh = some 0) :
+    reconstruct_butterworth_env qx qy ql qh n = 1 :=
+  butterworth_env_none qx qy ql qh n hl hh
+
+/-- **aperture weight.** The per-pixel term of `BF_weights` is the squared aperture of that detector pixel — between 0 and 1,
+and independent of the aberration coefficients (so is `BF_weights`, "the mask's total aperture weight") -/
+theorem aperture_weight_eq_spec (g : KGeom ℝ) (ij : Nat × Nat) :
+    weightTerm g ij = apertureAt g ij ^ 2 ∧ 0 ≤ apertureAt g ij ∧ apertureAt g ij ≤ 1 :=
+  ⟨weightTerm_eq g ij, (aperture_01 _ _ _ _ _ _).1, (aperture_01 _ _ _ _ _ _).2⟩
+
+/-- **the geometric shift.** For every detector pixel, rotation angle and coefficient set holding defocus / astigmatism only,
+the gradient the translated `reconstruct` hands to the parallax kernel (`aberration_surface_cartesian_gradients` at the
+passively rotated pixel, through `polar_coordinates`) is `2π ×` the shift `prlxShift` of the independent closed form; with no
+coefficient at all it is zero -/
+theorem parallax_gradient_eq_shift (g : KGeom ℝ) (ij : Nat × Nat) (h0 : g.detRows ≠ 0) (h1 : g.detCols ≠ 0)
+    (r0 : g.rs0 ≠ 0) (r1 : g.rs1 ≠ 0) (h : LowOrder g.coefs) :
+    (Generated.DirectKernel.hasAny g.coefs ["C10", "C12", "phi12"] = true →
+      gradAt g ij = (2 * Real.pi * (prlxShift (prlxGeomOf g) ij.1 ij.2).1,
+                     2 * Real.pi * (prlxShift (prlxGeomOf g) ij.1 ij.2).2)) ∧
+    (Generated.DirectKernel.hasAny g.coefs ["C10", "C12", "phi12"] = false → gradAt g ij = (0, 0)) :=
+  ⟨gradAt_eq_prlxShift g ij h0 h1 r0 r1 h, gradAt_none g ij h⟩
+
+/-- non-vacuity: a defocus + astigmatism dict satisfies the hypotheses, a dict with coma does not -/
+example : LowOrder [("C10", (5 : ℝ)), ("C12", 2), ("phi12", 1)] ∧
+    Generated.DirectKernel.hasAny [("C10", (5 : ℝ)), ("C12", 2), ("phi12", 1)] ["C10", "C12", "phi12"] = true ∧
+    ¬ LowOrder [("C21", (5 : ℝ))] := by
+  refine ⟨⟨?_, ?_, ?_, ?_⟩, ?_, ?_⟩ <;>
+    simp [LowOrder, Generated.DirectKernel.hasAny, Generated.DirectKernel.hasKey]
+
+/-- the factor images built from the translated kernel code are the hand-written operators the parallax theorems are about -/
+theorem generated_factor_eq_model (g : KGeom ℝ) (sign : Img ℝ) (ij : Nat × Nat) :
+    kernelFactor g .prlx sign ij = prlxOperator (gradAt g ij).1 (gradAt g ij).2 (qImgs g).1 (qImgs g).2 sign ∧
+    (sign.length = ((qImgs g).1.zip (qImgs g).2).length →
+      kernelFactor g .icom sign ij = icomOperator (kPoint g ij.1 ij.2).1 (kPoint g ij.1 ij.2).2 (qImgs g).1 (qImgs g).2) :=
+  ⟨kernelFactor_prlx g sign ij, kernelFactor_icom g sign ij⟩
+
+/-! ## the whole model: from (stack, mask pixels, hyper-parameters), no factor left as a parameter -/
+
+/-- batch invariance of the WHOLE reconstruction (kernel formulas included), every kernel -/
+theorem batch_invariant_full {R : Type} [Num R] (hR : AddLaws R) (F : Fourier R) (g : KGeom R) (k : Kernel)
+    (pix : List (Nat × Nat)) (mapping : List Nat) (stack : List (Img R))
+    (items : List Nat) (hnd : items.Nodup) (hi : ∀ i ∈ items, i < pix.length)
+    (batches : List (List Nat)) (hperm : batches.flatten.Perm items) :
+    reconstructFull F g k pix mapping stack batches = reconstructFull F g k pix mapping stack [items] := by
+  unfold reconstructFull
+  apply batch_invariant hR F k _ items hnd ?_ batches hperm
+  intro hk i him
+  have hlt := hi i him
+  simp [problemOfStack, geometryOf, powerTerm, hk, qImgs, qGrid, hlt]
+
+/-- linearity of the WHOLE reconstruction in the stack, every kernel, hyper-parameter set and schedule -/
+theorem linear_in_stack_full (g : KGeom ℝ) (k : Kernel) (pix : List (Nat × Nat)) (mapping : List Nat) (a : ℝ)
+    (v w : List (Img ℝ)) (h : SameShape v w) (batches : List (List Nat)) (hnd : batches.flatten.Nodup) :
+    reconstructFull Fourier.dft g k pix mapping (linStack a v w) batches =
+      List.zipWith (linRow a) (reconstructFull Fourier.dft g k pix mapping v batches)
+        (reconstructFull Fourier.dft g k pix mapping w batches) :=
+  linear_in_stack_dft k (geometryOf g k pix mapping) a v w h batches hnd
+
+/-- `geometryOf` hands the skeleton the factor image of the i-th mask pixel -/
+theorem geometryOf_K_prlx (g : KGeom ℝ) (pix : List (Nat × Nat)) (mapping : List Nat) (i : Nat)
+    (hi : i < pix.length) :
+    (geometryOf g .prlx pix mapping).K i = kernelFactor g .prlx (signImg g) pix[i] := by
+  simp [geometryOf, hi]
+
+/--
+**Parallax with defocus / astigmatism, whole model, per bright-field pixel** (`_partial`: the two DFT identities of
+`Fourier.CombIdentity` stay hypotheses on the FFT pair).  With `parallax_flip_phase=False`, no filter, and a coefficient
+set holding first-order terms only, the corrected image of mask pixel `i` computed by the model FROM THE TRANSLATED SOURCE
+(kernel branch, gradient, sign, envelope, aperture weight) is the mean-subtracted virtual image, placed on the upsampled
+grid, translated by the geometric shift `prlxShift` of that detector pixel (in scan pixels) and divided by the mask's total
+aperture weight — i.e. exactly the i-th summand of the independent closed form `prlxClosed`.
+-/
+theorem parallax_shift_full_partial (F : Fourier ℝ) (g : KGeom ℝ) (pix : List (Nat × Nat)) (mapping : List Nat)
+    (hcomb : F.CombIdentity g.u g.scanRows g.scanCols)
+    (hlen : ∀ y, (F.fft2 (g.u * g.scanRows) (g.u * g.scanCols) y).length = (g.u * g.scanRows) * (g.u * g.scanCols))
+    (hflip : g.flip = false) (hl : g.qLow = none ∨ g.qLow = some 0) (hh : g.qHigh = none ∨ g.qHigh = some 0)
+    (h0 : g.detRows ≠ 0) (h1 : g.detCols ≠ 0) (r0 : g.rs0 ≠ 0) (r1 : g.rs1 ≠ 0)
+    (hlow : LowOrder g.coefs) (hab : Generated.DirectKernel.hasAny g.coefs ["C10", "C12", "phi12"] = true)
+    (hdx : g.sx / (g.u : ℝ) ≠ 0) (hdy : g.sy / (g.u : ℝ) ≠ 0)
+    (stack : List (Img ℝ)) (i : Nat) (hi : i < pix.length) (hm : mapping.getD i 0 < stack.length)
+    (hvl : (stack.getD (mapping.getD i 0) []).length = g.scanRows * g.scanCols) (power : Img ℝ) :
+    itemValue F .prlx (problemOfStack F (geometryOf g .prlx pix mapping) stack) power i =
+      (translate F (g.u * g.scanRows) (g.u * g.scanCols)
+        (comb g.u g.scanRows g.scanCols (meanSub (stack.getD (mapping.getD i 0) [])))
+        ((prlxShift (prlxGeomOf g) pix[i].1 pix[i].2).1 / (g.sx / (g.u : ℝ)))
+        ((prlxShift (prlxGeomOf g) pix[i].1 pix[i].2).2 / (g.sy / (g.u : ℝ)))).map (· / bfWeights g pix) := by
+  have hK := geometryOf_K_prlx g pix mapping i hi
+  simp only [signImg_noflip g hflip, kernelFactor_prlx] at hK
+  have hgrad := gradAt_eq_prlxShift g pix[i] h0 h1 r0 r1 hlow hab
+  have key := parallax_shift_item_partial F (geometryOf g .prlx pix mapping) hcomb hlen
+    (by simpa [geometryOf] using envImg_nofilter g hl hh) stack i hm hvl
+    (g.sx / (g.u : ℝ)) (g.sy / (g.u : ℝ)) (gradAt g pix[i]).1 (gradAt g pix[i]).2 hdx hdy
+    (by simpa [geometryOf, qImgs] using hK) power
+  rw [key, hgrad]
+  have hpi := Real.pi_ne_zero
+  have e1 : 2 * Real.pi * (prlxShift (prlxGeomOf g) pix[i].1 pix[i].2).1 / (2 * Real.pi) / (g.sx / (g.u : ℝ)) =
+      (prlxShift (prlxGeomOf g) pix[i].1 pix[i].2).1 / (g.sx / (g.u : ℝ)) := by field_simp
+  have e2 : 2 * Real.pi * (prlxShift (prlxGeomOf g) pix[i].1 pix[i].2).2 / (2 * Real.pi) / (g.sy / (g.u : ℝ)) =
+      (prlxShift (prlxGeomOf g) pix[i].1 pix[i].2).2 / (g.sy / (g.u : ℝ)) := by field_simp
+  simp only [e1, e2]
+  rfl
+
+/--
+**Zero-aberration parallax, whole model, per bright-field pixel** (`_partial`: DFT identities as hypotheses).  With no
+aberration coefficient, no sign flipping and no filter, the corrected image of mask pixel `i` computed from the translated
+source is the mean-subtracted virtual image (on every `u`-th point of the finer grid) divided by the total aperture weight.
+-/
+theorem parallax_zero_full_partial (F : Fourier ℝ) (g : KGeom ℝ) (pix : List (Nat × Nat)) (mapping : List Nat)
+    (hcomb : F.CombIdentity g.u g.scanRows g.scanCols)
+    (hlen : ∀ y, (F.fft2 (g.u * g.scanRows) (g.u * g.scanCols) y).length = (g.u * g.scanRows) * (g.u * g.scanCols))
+    (hinv : ∀ y : Img ℝ, y.length = (g.u * g.scanRows) * (g.u * g.scanCols) →
+      (F.ifft2 (g.u * g.scanRows) (g.u * g.scanCols)
+        (F.fft2 (g.u * g.scanRows) (g.u * g.scanCols) (y.map Cx.ofReal))).map (·.re) = y)
+    (hflip : g.flip = false) (hl : g.qLow = none ∨ g.qLow = some 0) (hh : g.qHigh = none ∨ g.qHigh = some 0)
+    (hlow : LowOrder g.coefs) (hab : Generated.DirectKernel.hasAny g.coefs ["C10", "C12", "phi12"] = false)
+    (stack : List (Img ℝ)) (i : Nat) (hi : i < pix.length) (hm : mapping.getD i 0 < stack.length)
+    (hvl : (stack.getD (mapping.getD i 0) []).length = g.scanRows * g.scanCols) (power : Img ℝ) :
+    itemValue F .prlx (problemOfStack F (geometryOf g .prlx pix mapping) stack) power i =
+      (comb g.u g.scanRows g.scanCols (meanSub (stack.getD (mapping.getD i 0) []))).map (· / bfWeights g pix) := by
+  have hK := geometryOf_K_prlx g pix mapping i hi
+  simp only [signImg_noflip g hflip, kernelFactor_prlx, gradAt_none g pix[i] hlow hab] at hK
+  have key := parallax_zero_item_partial F (geometryOf g .prlx pix mapping) hcomb hlen hinv
+    (by simpa [geometryOf] using envImg_nofilter g hl hh) stack i hm hvl (qImgs g).1 (qImgs g).2
+    (by simp [geometryOf, qImgs, qGrid]) (by simp [geometryOf, qImgs, qGrid])
+    (by simpa [geometryOf] using hK) power
+  rw [key]
+  rfl
 
 end QuantemModel.Props.C04
